@@ -447,6 +447,25 @@ def run(ctx):
                    (["d = %s" % _d, "d < ceil(d)"], "I:1", "d < ceil(d) through a variable"),
                    (["d = %s" % _d, "(ceil(d) - floor(d)) to d"], "I:1", "ceil(d) - floor(d) is one day through a variable"),
                    (["d = %s" % _d, "f = floor(d)", "g = d + 1", "h = d - 3 h", "d == %s" % _d], "I:1", "floor/+/- leave d unchanged")]
+    # --- instants written with a UTC offset are instants too: the same relations, within one offset and across offsets
+    _aw = ["2024-01-01T10:00:00+02:00", "2024-02-29T23:59:59.999999-05:00", "2023-12-31T00:00:00+14:00", "2024-03-31T00:30:00Z",
+           "1999-12-31T23:00:00-12:00", "2024-01-31T12:00:00+05:30", "0001-01-03T00:00:00+00:00", "9999-12-30T23:59:59+01:00",
+           "2023-02-28T00:00:00-00:30", "2024-12-31T23:59:59.000001+09:00"]
+    for _a in _aw:
+        _items += [(["I = #%s#" % _a, "floor(I) <= I"], "I:1", "floor(I) <= I for an instant with an offset"),
+                   (["I = #%s#" % _a, "I < ceil(I)"], "I:1", "I < ceil(I) for an instant with an offset"),
+                   (["I = #%s#" % _a, "(ceil(I) - floor(I)) to d"], "I:1", "ceil(I) - floor(I) is one day for an instant with an offset"),
+                   (["I = #%s#" % _a, "hour(floor(I)) + minute(floor(I)) + second(floor(I)) + hour(ceil(I))"], "I:0", "floor and ceil are at midnight"),
+                   (["I = #%s#" % _a, "day(floor(I)) == day(I)"], "I:1", "floor keeps the calendar day of the written date"),
+                   (["I = #%s#" % _a, "round(((I + 90 min) - I) to s) == 5400"], "I:1", "(I+q)-I = q with an offset"),
+                   (["I = #%s#" % _a, "((I - 36 h) + 36 h) == I"], "I:1", "(I-q)+q = I with an offset"),
+                   (["I = #%s#" % _a, "((I + 1) - I) to d"], "I:1", "I+1 is one day later with an offset")]
+    for _a, _b in zip(_aw, _aw[1:] + _aw[:1]):
+        _items += [(["I = #%s#" % _a, "J = #%s#" % _b, "(I - J) == (0 s) - (J - I)"], "I:1", "I-J = -(J-I) across offsets"),
+                   (["I = #%s#" % _a, "J = #%s#" % _b, "(I < J) + (I == J) + (I > J)"], "I:1", "exactly one of <, ==, > across offsets"),
+                   (["I = #%s#" % _a, "J = #%s#" % _b, "(I < J) == ((I - J) < (0 s))"], "I:1", "< agrees with the sign of I-J across offsets"),
+                   (["I = #%s#" % _a, "J = #%s#" % _b, "(I >= J) == ((I - J) >= (0 s))"], "I:1", ">= agrees with the sign of I-J across offsets"),
+                   (["I = #%s#" % _a, "J = #%s#" % _b, "(I != J) == (1 - (I == J))"], "I:1", "!= is the negation of == across offsets")]
     _items += [(["#2020-01-01T01:00:00.000001# - #2020-01-01#"], lambda o: o.get("value") in ("Q:X:%s|0,0,1,0,0,0,0,0" % (3600.000001).hex(),), "microseconds survive a difference of an hour"),
                (["I = #2020-01-01#", "q = 1 year + 1 ms", "round(((I+q)-I) to ms) == 31536000001"], "I:1", "(I+q)-I = q (to the microsecond) for a year plus a millisecond"),
                (["I = #2020-01-01#", "J = I + 365 d + 1 ms", "K = I + 365 d + 2 ms", "(J-I) < (K-I)"], "I:1", "differences a millisecond apart at a year's distance are ordered")]
